@@ -432,6 +432,26 @@ pub fn c01(rec: &RunRecord) -> Vec<Violation> {
                     ));
                 }
             }
+            // ... and none is dropped: every ttl with an outcome on record, up to the greatest
+            // path length any round reported, has its hop in the snapshot
+            if rec.sc.clear_after_round.is_none() {
+                let greatest = rec.rounds.iter().map(|r| r.largest_ttl).max().unwrap_or(0);
+                let mut on_record = [false; 256];
+                for r in &rec.rounds {
+                    for p in &r.probes {
+                        if let Some(f) = probe_fields(p) {
+                            on_record[usize::from(f.0)] = true;
+                        }
+                    }
+                }
+                if let Some(ttl) = (1..=greatest).find(|t| on_record[usize::from(*t)] && !hops.iter().any(|h| h.ttl() == *t)) {
+                    v.push(Violation::new(
+                        "C01",
+                        "c01.totals.hop-dropped",
+                        format!("ttl {ttl}: outcomes are on record for this ttl (path length up to {greatest}) but the snapshot has no hop for it"),
+                    ));
+                }
+            }
         }
     }
     v
@@ -2098,7 +2118,8 @@ pub fn c19(rec: &RunRecord) -> Vec<Violation> {
     }
     // "responding hop" means a hop whose response the network handed over: a response the
     // tracer failed to book (or booked elsewhere) hides the hop at which NAT shows
-    if applicable && rec.sc.synth.is_none() && v.is_empty() {
+    // (send and receive times are wall-clock times: not comparable after a clock step)
+    if applicable && rec.sc.synth.is_none() && rec.sc.faults.wall_clock_back.is_none() && v.is_empty() {
         v.extend(
             relabel(c01(rec), "C19", "c01.", "c19.truth.")
                 .into_iter()
@@ -2317,6 +2338,20 @@ pub fn c16(rec: &RunRecord) -> Vec<Violation> {
         }));
         if ok.is_err() {
             v.push(Violation::new("C16", "c16.state-query-panicked", "querying the state of an accepted configuration panicked".to_string()));
+        } else {
+            // the limits in force are the configured ones, also after the state was cleared
+            let over = std::panic::catch_unwind(std::panic::AssertUnwindSafe(|| {
+                let samples = s.hops().iter().map(|h| h.samples().len()).max().unwrap_or(0);
+                (samples, s.flows().len())
+            }));
+            if let Ok((samples, flows)) = over {
+                if samples > t.max_samples {
+                    v.push(Violation::new("C16", "c16.limit.max-samples", format!("a hop keeps {samples} samples, max-samples is {}", t.max_samples)));
+                }
+                if flows > t.max_flows {
+                    v.push(Violation::new("C16", "c16.limit.max-flows", format!("{flows} flows are on record, max-flows is {}", t.max_flows)));
+                }
+            }
         }
     }
     v
